@@ -280,56 +280,136 @@ def _strip_breaks(blk):
 
 
 def period_rules(R, lib, f, arms, now_var, ob):
-    def uncast(v):
-        """strip value-preserving casts of a millisecond count (32 bits or wider); a narrower cast is kept and defeats the match."""
-        while v.k == 'cast' and isinstance(v.a[0], int) and v.a[0] >= 32:
-            v = v.a[2]
-        return v
+    """The waiting periods, the request timeout and the back-off are decided by *evaluating* the path summary of each arm
+    (E-GNF: ?: split into paths, small helpers of the class summarised in place) on a finite domain of field values and
+    clock readings, so the spelling of the tests (operand order, a local for the elapsed time, a helper predicate, ?: or
+    if) does not matter.  What evaluation cannot see - conversions are value-preserving in the summary - is guarded
+    separately: no value derived from the millisecond clock may pass through a type narrower than 32 bits."""
+    from .gnf import SymExec, eval_formula, eval_poly, arith_assign
+    byname = {q.split('::')[-1]: lib.const(q) for q in lib.globals if q.startswith(SCL + '::kStatus')}
+    CUR, SYNC, START, LAST, TMO, STATUS = ('this.mCurrentSyncPeriodSeconds', 'this.mSyncPeriodSeconds', 'this.mRequestStartMillis',
+                                          'this.mLastSyncMillis', 'this.mRequestTimeoutMillis', 'this.mRequestStatus')
 
-    def is_elapsed(blk, e, field):
-        """e is `now - field`, written in place or through a local of the arm defined as that difference (not narrowed)."""
-        e = uncast(e)
-        if e.k == 'var':
-            for b in walk_stmts(blk):
-                if b.k == 'decl' and b.a[0] == e.a[0] and b.a[2] is not None:
-                    it = int_type(b.a[1])
-                    if it is None or it[0] < 32:
-                        return False
-                    e = uncast(b.a[2])
-        return e.k == 'bin' and e.a[0] == '-' and path_of(uncast(e.a[1])) == now_var and path_of(uncast(e.a[2])) == field
-    for state, field in (('kStatusOk', 'this.mLastSyncMillis'), ('kStatusWaitForRetry', 'this.mRequestStartMillis')):
-        blk = arms.get(state, [])
-        c = '%s::loop:%s:wait' % (SCL, state)
-        ok, why = False, 'the arm does not measure %s - %s' % (now_var, field.replace('this.', ''))
-        for s in walk_stmts(blk):
+    def helpers(name, nargs):
+        if not name.startswith(SCL + '::'):
+            return None
+        return next((g for g in lib.fns(name) if len(g.params) == nargs and not any(x.k == 'loop' for x in walk_stmts(g.body))), None)
+
+    def summarise(state):
+        sx = SymExec(fold_global=lib.global_value)
+        sx.split_cond = True
+        sx.inliner = helpers
+        return sx.run(f.name, _strip_breaks(arms.get(state, [])), {now_var: Poly.atom(('sym', 'now'))} if now_var else {})
+
+    def run_arm(summ, env, fnvals=None):
+        """-> (new status or None, effects {target: value}) of the single path taken under env, or an error text"""
+        base = arith_assign(dict({'null': 0, 'this.mTimingStats': 0}, **env))
+
+        def asg(a):
+            if a[0] == 'fn' and fnvals is not None:
+                for suffix, v in fnvals.items():
+                    if a[1].endswith(suffix):
+                        return v
+            return base(a)
+        try:
+            hits = [p for p in summ.paths if eval_formula(p[0], asg)]
+        except (KeyError, TypeError) as ex:
+            return 'the arm reads %s, which is not part of the state the rule models' % (ex,), None
+        if len(hits) != 1:
+            return '%d paths apply' % len(hits), None
+        out = {}
+        for t, v in hits[0][3]:
+            if t != 'call':
+                try:
+                    out[t] = eval_poly(Poly(dict(v)), asg)
+                except (KeyError, TypeError):
+                    out[t] = None
+        return None, out
+
+    def narrowed(state):
+        """a test of the arm decides on a value computed from the millisecond clock after it has passed through a
+        conversion or a local narrower than 32 bits (the statistics' 16-bit duration is not a decision and is not meant)"""
+        tainted = {now_var}
+        narrow = {}
+        for s in walk_stmts(arms.get(state, [])):
+            if s.k == 'decl' and s.a[2] is not None and any(x.k == 'var' and x.a[0] in tainted for x in walk_expr(s.a[2])):
+                it = int_type(s.a[1])
+                if it is not None and it[0] < 32:
+                    narrow[s.a[0]] = it[0]
+                tainted.add(s.a[0])
             if s.k == 'if':
-                cnd = uncast(s.a[0])
-                if cnd.k == 'bin' and cnd.a[0] in ('>=', '>') and is_elapsed(blk, cnd.a[1], field):
-                    p = Canon(fold_global=lib.global_value)(cnd.a[2])
-                    want = Poly.atom(('sym', 'this.mCurrentSyncPeriodSeconds')) * Poly.const(1000)
-                    ok = p == want
-                    why = 'elapsed milliseconds are compared with %r, expected mCurrentSyncPeriodSeconds * 1000' % p
-        ob('R5', c, f.loc, ok, why)
-    # request timeout in the sent state
-    blk = arms.get('kStatusSent', [])
-    ok, why = False, 'no timeout test against mRequestTimeoutMillis on the not-ready path'
-    for s in walk_stmts(blk):
-        if s.k == 'if':
-            cnd = s.a[0]
-            while cnd.k == 'cast':
-                cnd = cnd.a[2]
-            if cnd.k == 'bin' and cnd.a[0] in ('>=', '>'):
-                r = cnd.a[2]
-                while r.k == 'cast':
-                    r = r.a[2]
-                if path_of(r) == 'this.mRequestTimeoutMillis':
-                    ok = is_elapsed(blk, cnd.a[1], 'this.mRequestStartMillis')
-                    why = 'the timeout is not measured from mRequestStartMillis'
-    ob('R5', '%s::loop:kStatusSent:timeout' % SCL, f.loc, ok, why)
+                for e in walk_expr(s.a[0]):
+                    if e.k == 'cast' and isinstance(e.a[0], int) and e.a[0] < 32 and any(x.k == 'var' and x.a[0] in tainted for x in walk_expr(e.a[2])):
+                        return '%s: the elapsed time is converted to %d bits before it is tested' % (e.loc, e.a[0])
+                    if e.k == 'var' and e.a[0] in narrow:
+                        return '%s: the elapsed time is tested through the %d-bit local %s' % (e.loc, narrow[e.a[0]], e.a[0])
+        return None
+
+    # ---- the two waits: leave for the request state exactly when period * 1000 ms have elapsed since the reference stamp
+    for state, field in (('kStatusOk', LAST), ('kStatusWaitForRetry', START)):
+        c = '%s::loop:%s:wait' % (SCL, state)
+        bad = narrowed(state)
+        if bad is None:
+            try:
+                summ = summarise(state)
+            except AnalysisError as ex:
+                summ, bad = None, 'the arm cannot be summarised: %s' % ex
+        if bad is None:
+            n = 0
+            for cur in (1, 2, 5, 60, 66, 3600, 65535):
+                for stamp in (0, 123456):
+                    for d in (-1, 0, 1):
+                        el = cur * 1000 + d
+                        env = {CUR: cur, SYNC: 3600, START: 7, LAST: 7, TMO: 1000, 'now': stamp + el}
+                        env[field] = stamp
+                        err, eff = run_arm(summ, env)
+                        if err:
+                            bad = err
+                            break
+                        n += 1
+                        leaves = eff.get(STATUS) == byname.get('kStatusReady')
+                        if leaves != (d >= 0):
+                            bad = ('period %d s, %d ms after %s: the arm %s (expected to wait for exactly period * 1000 ms measured from that stamp)'
+                                   % (cur, el, field.replace('this.', ''), 'issues a new request' if leaves else 'keeps waiting'))
+                            break
+                    if bad:
+                        break
+                if bad:
+                    break
+        ob('R5', c, f.loc, bad is None, bad or '')
+    # ---- request timeout in the sent state: without a response the request is given up exactly when the timeout has elapsed
+    c = '%s::loop:kStatusSent:timeout' % SCL
+    bad = narrowed('kStatusSent')
+    if bad is None:
+        try:
+            summ = summarise('kStatusSent')
+        except AnalysisError as ex:
+            summ, bad = None, 'the arm cannot be summarised: %s' % ex
+    if bad is None:
+        for tmo in (0, 1, 1000, 65535):
+            for stamp in (0, 123456):
+                for d in (-1, 0, 1):
+                    if tmo + d < 0:
+                        continue
+                    env = {CUR: 5, SYNC: 3600, START: stamp, LAST: 7, TMO: tmo, 'now': stamp + tmo + d, 'this.mTimingStats': 0}
+                    err, eff = run_arm(summ, env, {'::isResponseReady': 0, '::readResponse': 1})
+                    if err:
+                        bad = err
+                        break
+                    gives_up = eff.get(STATUS) == byname.get('kStatusWaitForRetry')
+                    if gives_up != (d >= 0) or (not gives_up and STATUS in eff):
+                        bad = ('timeout %d ms, no response %d ms after the request: the arm %s (expected to give up exactly when the timeout has '
+                               'elapsed since mRequestStartMillis)' % (tmo, tmo + d, 'gives up' if gives_up else 'goes to status %r' % eff.get(STATUS) if STATUS in eff else 'keeps waiting'))
+                        break
+                if bad:
+                    break
+            if bad:
+                break
+    ob('R5', c, f.loc, bad is None, bad or '')
     # the response is looked at before the timeout decides: a request is only given up on a path where
     # isResponseReady() has answered
     c = '%s::loop:kStatusSent:response-before-timeout' % SCL
-    byname = {q.split('::')[-1]: lib.const(q) for q in lib.globals if q.startswith(SCL + '::kStatus')}
+    blk = arms.get('kStatusSent', [])
 
     class RF(Rule):
         def initial(self_):
@@ -349,34 +429,35 @@ def period_rules(R, lib, f, arms, now_var, ob):
             return st
     if blk:
         Engine(RF()).run(_strip_breaks(blk))
-    # back-off
-    blk = arms.get('kStatusWaitForRetry', [])
-    ok, why = False, 'back-off shape not recognised'
-    for s in walk_stmts(blk):
-        if s.k == 'if':
-            cnd = s.a[0]
-            while cnd.k == 'cast':
-                cnd = cnd.a[2]
-            if cnd.k == 'bin' and cnd.a[0] in ('>=', '>') and path_of(cnd.a[1].a[2] if cnd.a[1].k == 'cast' else cnd.a[1]) == 'this.mCurrentSyncPeriodSeconds':
-                rhs = Canon(fold_global=lib.global_value)(cnd.a[2])
-                half = Poly.atom(('tdiv', Poly.atom(('sym', 'this.mSyncPeriodSeconds')).key(), Poly.const(2).key()))
-                t_assign = [x for x in s.a[1] if x.k == 'assign' and path_of(x.a[0]) == 'this.mCurrentSyncPeriodSeconds']
-                e_assign = [x for x in s.a[2] if x.k == 'assign' and path_of(x.a[0]) == 'this.mCurrentSyncPeriodSeconds']
-                if rhs == half and len(t_assign) == 1 and len(e_assign) == 1:
-                    t_ok = t_assign[0].a[2] == '=' and path_of(t_assign[0].a[1]) == 'this.mSyncPeriodSeconds'
-                    ea = e_assign[0]
-                    cur = Poly.atom(('sym', 'this.mCurrentSyncPeriodSeconds'))
-                    if ea.a[2] == '=':
-                        newv = Canon(fold_global=lib.global_value)(ea.a[1])
-                    else:
-                        newv = Canon(fold_global=lib.global_value)(E('bin', ea.a[2][:-1], ea.a[0], ea.a[1]))
-                    # cur < S/2 (integer)  =>  2*cur <= S - 2 < S <= 65535: doubling cannot exceed S nor overflow
-                    e_ok = newv == cur * Poly.const(2)
-                    ok = t_ok and e_ok
-                    why = 'back-off assigns %s / %r (expected: at or above half the sync period -> the sync period, else doubled)' % (show(t_assign[0].a[1]), newv)
-                else:
-                    why = 'saturation test compares the period with %r, expected mSyncPeriodSeconds / 2' % rhs
-    ob('R5', '%s::loop:kStatusWaitForRetry:backoff' % SCL, f.loc, ok, why)
+    # ---- back-off: on leaving the retry state the period becomes the sync period once half of it is reached, else doubles
+    c = '%s::loop:kStatusWaitForRetry:backoff' % SCL
+    bad = None
+    n_back = 0
+    try:
+        summ = summarise('kStatusWaitForRetry')
+    except AnalysisError as ex:
+        summ, bad = None, 'the arm cannot be summarised: %s' % ex
+    if bad is None:
+        for sync in (1, 2, 3, 4, 5, 7, 8, 9, 60, 61, 3599, 3600, 65534, 65535):
+            curs = sorted({x for x in list(range(0, 12)) + [sync // 2 - 1, sync // 2, sync // 2 + 1, sync - 1, sync, sync + 1, 32767, 32768, 65535] if 0 <= x <= 65535})
+            for cur in curs:
+                env = {CUR: cur, SYNC: sync, START: 0, LAST: 0, TMO: 1000, 'now': cur * 1000 + 5}
+                err, eff = run_arm(summ, env)
+                if err:
+                    bad = err
+                    break
+                if eff.get(STATUS) != byname.get('kStatusReady'):
+                    continue            # reported by the wait rule
+                n_back += 1
+                new = eff.get(CUR, cur)
+                want = sync if cur >= sync // 2 else 2 * cur
+                if new is None or (new & 0xffff) != want:
+                    bad = ('sync period %d s, current retry period %d s: the next period is %s s%s, expected %d (the sync period once half of it is '
+                           'reached, else doubled)' % (sync, cur, new, '' if new is None or new < 65536 else ' (%d as a 16-bit value)' % (new & 0xffff), want))
+                    break
+            if bad:
+                break
+    ob('R5', c, f.loc, bad is None and n_back > 0, bad or 'the retry arm never goes back to the request state')
 
 
 def fsm_typestate(R, lib, f, arms, consts, byval, trans, ob):
